@@ -221,6 +221,7 @@ namespace pika::thread_pool_bulk_detail {
                         PIKA_VERIF_POST("bulk.last", op_state, worker_thread, op_state->exception_thrown.load());
                         if (op_state->exception_thrown)
                         {
+                            PIKA_VERIF_POST("bulk.decide", op_state, worker_thread, 1);
                             PIKA_ASSERT(op_state->exception.has_value());
                             pika::execution::experimental::set_error(std::move(op_state->receiver),
                                 // NOLINTNEXTLINE(bugprone-unchecked-optional-access)
@@ -228,6 +229,7 @@ namespace pika::thread_pool_bulk_detail {
                         }
                         else
                         {
+                            PIKA_VERIF_POST("bulk.decide", op_state, worker_thread, 0);
                             pika::detail::visit(
                                 set_value_end_loop_visitor{op_state}, std::move(op_state->ts));
                         }
